@@ -4,6 +4,8 @@ import json, os
 ROOT = os.path.dirname(os.path.dirname(os.path.abspath(__file__)))
 
 MC = "model_checking"; TV = "translation_validation"; EX = "exploration"
+W_NOTE = 'Bounds: catalogue of ~49 type expressions (+40 seeded random in the thorough tier), dynamic axes 0..3, 4 value families, histories <= 3/4 steps -- all ENUMERATED; placement (capacity, free-list chunk bounds with N<=1 quick / <=2 thorough, explicit offset, grow step, growth amounts; prior contents = poison) decided by the SOLVER for all values < 2^62. Quick tier assumes a roomy first chunk for multi-allocation scenarios (running out of space is explored by the growth placements). Stubs S1 (Int64 codec for symbolic words), S2 (is_integer), S9 (write-log storage model, validated each run against the real BufferNumpy/BufferByteArray by running every scenario concretely).'
+W_TECH = "symbolic execution of the real Python constructors/accessors on z3 Int proxies over a write-log buffer model with symbolic placement; z3 unsat per obligation; concrete replay on real CPU buffers"
 CHECKS = {
  "C02": (TV, "5/C02",
   "Translation validation per generated C function: the exact text capi.gen_code/specialize_source produce is parsed (pycparser) and translated to z3 terms; for every catalogue type, data path and function (get/set/getp/len/typeid/member) the disequality between the C address/length/typeid term and (a) the documented-layout term and (b) the term obtained by symbolically executing the real Python readers on an ld-buffer is checked unsat for ALL indices and ALL header words at once under WF. sat = replayed by compiling the accessor with cffi and comparing with the Python accessors on a real object.",
@@ -25,6 +27,31 @@ CHECKS = {
   "Same symbolic inductive step as C04 with the first-fit executable specification as oracle: lowest fitting chunk, growth only when nothing fits, exact free-list point-set after free, coalescing (non-touching chunks + two-step adjacent-free harness), free-total accounting, exceptions as outcomes, and a ranking obligation per growth round (bytes missing at the tail decrease by the growth amount and the number of self-recursions stays within a 900-frame budget).",
   "As C04; recursion budget stated as 900 frames; growth amount itself is not part of the oracle.",
   "symbolic execution of real Python on z3 Int proxies vs. first-fit reference predicates; ranking-function obligation; replay of models"),
+
+ "C01": (MC, "5/C01",
+  "Bounded symbolic execution of the real constructors and readers: every catalogue type x value sample x input form (plain data, ndarray with/without conversion, object ndarray, another xobject, string capacities) is constructed with the real code on a buffer whose capacity, free list, explicit offset, grow step and prior contents are solver variables; read-back through every accessor (and to_nplike/to_nparray) must equal the input on every feasible path, with no never-written byte showing through.",
+  W_NOTE, W_TECH),
+ "C03": (MC, "5/C03",
+  "Frame condition by symbolic execution: every store the real constructor / a fitting assignment issues is proved (z3) to lie inside the object's extent or an extent allocated during the operation, for every placement; reported size == reserved extent == size word; every nested part inside its parent, siblings disjoint (solver, on the library's own offsets); live neighbours on both sides read back unchanged.",
+  W_NOTE, W_TECH),
+ "C05": (MC, "5/C05",
+  "An independent decoder written from Architecture.md/types.rst/C05 (vx.layoutspec, not the library's reader) is run over the symbolic memory image the real writers produced: it must recover the written value, and every part must start at a multiple of 8 relative to its object, for every placement (symbolic reference words are followed symbolically).",
+  W_NOTE, W_TECH),
+ "C06": (MC, "5/C06",
+  "For every catalogue type: the handle returned by the real constructor versus a view rebuilt by the real _from_buffer from (buffer, offset) on a symbolically placed buffer: equal values, equal _size/_shape/_strides, equal address for every index/field at every nesting level (z3 equality of the offset terms), and a write through either is read through the other.",
+  W_NOTE, W_TECH),
+ "C08": (MC, "5/C08",
+  "Reference histories (bind to existing / value / foreign object / null, write through either side, grow by a symbolic amount, allocate a symbolic size until growth) on reference-bearing structs with symbolic placement: alias => same target offset (z3) and writes visible both ways, no allocation; value/foreign => target inside a region allocated in the holder's buffer during the assignment; null => None and member index -1; after every step every non-null reference resolves inside the buffer, outside every free chunk (z3), and the holder reads back as the model says.",
+  W_NOTE, W_TECH),
+ "C09": (MC, "5/C09",
+  "Copy-construction by the real constructors into the same buffer, another buffer of the same context, and another context, on symbolically placed buffers: equal value, equal size, extents disjoint (z3), later writes on either side do not show through, every reference in the copy resolves in the copy's own buffer (same buffer: same target offset; otherwise: inside a region allocated there during the copy).",
+  W_NOTE, W_TECH),
+ "C10": (MC, "5/C10",
+  "Model-based histories (set leaf / set whole nested compound of equal size, through the handle or a freshly rebuilt view / grow by a symbolic amount) executed with the real setters on symbolically placed objects; after every step the whole object is re-read and compared with a plain-Python model, and every size, shape, stride and offset must be unchanged (z3 equality).",
+  W_NOTE, W_TECH),
+ "C11": (MC, "5/C11",
+  "Misuse classes (index outside the shape incl. negative, string too long for the space fixed at creation, array update of another length, same-length update with larger dynamic items, union non-member by object and by name, buffer of another context, offset without buffer) executed on symbolically placed objects with live neighbours: an exception must be raised, the write log must be unchanged at that point for every placement, object and neighbours keep their values.",
+  W_NOTE, W_TECH),
 }
 NA = {
  "C17": "kernel-call glue around cffi/ctypes pointers and NumPy scalar constructors: values cross into C objects a symbolic executor cannot follow and there is no arithmetic to encode beyond ctypes.data+_offset; needs compiled kernels and byte-level observation (execution, not solving). DESIGN.md section 6.",
@@ -67,6 +94,8 @@ def main():
         },
         "engines": [
             {"name": "symx", "path": "vx/symx.py", "serves_properties": sorted(CHECKS), "kind_free_text": "replay-based symbolic executor: real Python functions run on z3 Int proxies, branch decisions and obligations discharged by z3"},
+            {"name": "symbuf", "path": "vx/symbuf.py", "serves_properties": [p for p in sorted(CHECKS) if p in ("C01","C03","C05","C06","C08","C09","C10","C11")], "kind_free_text": "buffers with symbolic placement: real XBuffer allocator + write-log memory whose reads are resolved by solver queries"},
+            {"name": "cgen", "path": "vx/cgen.py", "serves_properties": [p for p in sorted(CHECKS) if p in ("C02","C07","C15","C16")], "kind_free_text": "generated C (pycparser AST) -> z3 terms"},
         ],
         "checks": checks,
         "not_applicable": na,
